@@ -1039,7 +1039,14 @@ fn proc_plan_of(case: &Case) -> ProcPlan {
             kind: match f.kind {
                 FaultKind::Missing => "probe-enoent",
                 FaultKind::Unreadable => "open-eacces",
-                _ => "read-eio",
+                // (the medium fails at the first read, or after a few bytes)
+                _ => {
+                    if u8::from_str_radix(&case.digest()[2..4], 16).unwrap_or(0) % 2 == 0 {
+                        "read-eio"
+                    } else {
+                        "read-eio-late"
+                    }
+                }
             }
             .to_string(),
             path: f.path.clone(),
